@@ -2,10 +2,12 @@ package main
 
 import (
 	"encoding/json"
+	"flag"
 	"fmt"
 	"net/url"
 	"os"
 	"path/filepath"
+	"regexp"
 	"sort"
 	"strings"
 
@@ -40,6 +42,46 @@ type c03Case struct {
 	Ver json.Number `json:"ver"`
 	Doc any         `json:"doc"`
 	Ext any         `json:"ext"` // optional: sequence of {name, doc}: the external resources
+	// Hist: how the document reaches the library.  entry "fresh" (or absent): a document line -- every reader gets a
+	// fresh receiver.  Otherwise a history line: ONE receiver (a T value, or a Loader) is filled with the prior
+	// documents, in order, and then with the document under test; entry names the way it is filled.
+	Hist *c03Hist `json:"hist"`
+}
+
+type c03Hist struct {
+	Entry string `json:"entry"`
+	Prior []struct {
+		Name string `json:"name"`
+		Doc  any    `json:"doc"`
+	} `json:"prior"`
+	Frag any `json:"frag"` // kind-level entries ("kind", "wrap"): the bare object under test
+}
+
+func (h *c03Hist) isKindLevel() bool { return h != nil && (h.Entry == "kind" || h.Entry == "wrap") }
+
+func (h *c03Hist) isHistory() bool { return h != nil && h.Entry != "" && h.Entry != "fresh" }
+
+func (h *c03Hist) echo() any {
+	if h == nil {
+		return T{"entry": "fresh", "prior": []any{}}
+	}
+	prior := []any{}
+	for _, p := range h.Prior {
+		in, ok := c03Project([]byte(c03Text(p.Doc)))
+		if !ok {
+			panic("harness: cannot project own prior document")
+		}
+		prior = append(prior, T{"name": p.Name, "doc": in})
+	}
+	res := T{"entry": h.Entry, "prior": prior}
+	if h.Frag != nil {
+		in, ok := c03Project([]byte(c03Text(h.Frag)))
+		if !ok {
+			panic("harness: cannot project own object")
+		}
+		res["frag"] = in
+	}
+	return res
 }
 
 // c03Table renders the case's external resources as JSON text, keyed by resource name.
@@ -60,11 +102,20 @@ func c03ExtEcho(ext any) any {
 }
 
 // c03Loader: a fresh loader that resolves external references from the table only.
+// A document loaded with a base location (LoadFromDataWithPath, "/w/d/root<n>.json": the documents of one history
+// sit side by side, so that they ask for the same external resources) asks for its resources below that
+// directory: the table is keyed by the part from "ext/" on.
 func c03Loader(table map[string][]byte) *openapi3.Loader {
 	loader := openapi3.NewLoader()
 	loader.IsExternalRefsAllowed = true
 	loader.ReadFromURIFunc = func(_ *openapi3.Loader, location *url.URL) ([]byte, error) {
-		if data, ok := table[location.String()]; ok {
+		name := location.String()
+		if strings.HasPrefix(name, "/w/") {
+			if i := strings.Index(name, "/ext/"); i >= 0 {
+				name = name[i+1:]
+			}
+		}
+		if data, ok := table[name]; ok {
 			return data, nil
 		}
 		return nil, fmt.Errorf("harness: no external resource %q", location.String())
@@ -72,18 +123,25 @@ func c03Loader(table map[string][]byte) *openapi3.Loader {
 	return loader
 }
 
+func c03Location(n int) *url.URL { return &url.URL{Path: fmt.Sprintf("/w/d/root%d.json", n)} }
+
 func c03Run(c *Case) []any {
 	var tc c03Case
 	c.Decode(&tc)
 	ver := asInt(tc.Ver)
-	line := map[string]any{"case": c.Idx, "d": tc.D, "ver": ver, "c": tc.Doc, "ext": c03ExtEcho(tc.Ext)}
+	line := map[string]any{"case": c.Idx, "d": tc.D, "ver": ver, "c": tc.Doc, "ext": c03ExtEcho(tc.Ext), "hist": tc.Hist.echo()}
 	text := c03Text(tc.Doc)
 	in, ok := c03Project([]byte(text))
 	if !ok {
 		panic("harness: cannot project own input " + text)
 	}
 	line["in"] = in
-	if ver == 3 {
+	if tc.Hist.isKindLevel() {
+		kind, _ := tc.D.(map[string]any)["kind"].(string)
+		line["obs"] = c03KindHistory(ver, kind, []byte(text), c03Table(tc.Ext), tc.Hist)
+	} else if tc.Hist.isHistory() {
+		line["obs"] = c03History(ver, []byte(text), c03Table(tc.Ext), tc.Hist)
+	} else if ver == 3 {
 		line["obs"] = c03Trips3([]byte(text), c03Table(tc.Ext))
 	} else {
 		line["obs"] = c03Trips2([]byte(text))
@@ -97,8 +155,16 @@ func c03Abnormal(c *Case, kind string) []any {
 	text := c03Text(tc.Doc)
 	in, _ := c03Project([]byte(text))
 	bad := T{"ok": false, "err": kind}
+	obs := T{"j1": bad}
+	if tc.Hist.isHistory() {
+		obs["jh"], obs["pr"] = bad, []any{}
+	} else {
+		for _, n := range []string{"j2", "ja", "ji", "ju", "jm"} {
+			obs[n] = bad
+		}
+	}
 	return []any{map[string]any{"case": c.Idx, "d": tc.D, "ver": asInt(tc.Ver), "c": tc.Doc, "in": in, "ext": c03ExtEcho(tc.Ext),
-		"obs": T{"j1": bad, "j2": bad, "ja": bad, "ji": bad}}}
+		"hist": tc.Hist.echo(), "obs": obs}}
 }
 
 // c03Trip runs one codec path; stage names classify failures (never by message text).
@@ -127,6 +193,12 @@ func c03Clip(s string) string {
 }
 
 type c03Fail struct{ msg string }
+
+// c03UnquoteIntKeys rewrites block-style mapping keys that are quoted decimal integers without a leading zero
+// ("200": -> 200:), whatever their depth; values and sequence items are left alone.
+var c03IntKey = regexp.MustCompile(`(?m)^(\s*(?:- )*)"([1-9][0-9]{0,8})":( |$)`)
+
+func c03UnquoteIntKeys(y []byte) []byte { return c03IntKey.ReplaceAll(y, []byte("$1$2:$3")) }
 
 func c03Trips3(text []byte, table map[string][]byte) any {
 	load := func(data []byte) (*openapi3.T, error) { return c03Loader(table).LoadFromData(data) }
@@ -189,6 +261,106 @@ func c03Trips3(text []byte, table map[string][]byte) any {
 			*stage = "to_yaml"
 			y, err := oyaml.JSONToYAML(text)
 			return reload(stage, y, err)
+		})
+		// other readers, each with a fresh receiver: json.Unmarshal / yaml.Unmarshal into an openapi3.T without a
+		// loader (references stay unresolved: they are written as they were read), a loader given a base location,
+		// a loader reading a stream
+		step("ju", func(stage *string) ([]byte, error) {
+			*stage = "load"
+			var d openapi3.T
+			if err := json.Unmarshal(text, &d); err != nil {
+				return nil, err
+			}
+			*stage = "marshal"
+			return json.Marshal(&d)
+		})
+		step("jyu", func(stage *string) ([]byte, error) {
+			*stage = "to_yaml"
+			y, err := oyaml.JSONToYAML(text)
+			if err != nil {
+				return nil, err
+			}
+			*stage = "load"
+			var d openapi3.T
+			if err := oyaml.Unmarshal(y, &d); err != nil {
+				return nil, err
+			}
+			*stage = "marshal"
+			return json.Marshal(&d)
+		})
+		step("jp", func(stage *string) ([]byte, error) {
+			*stage = "load"
+			d, err := c03Loader(table).LoadFromDataWithPath(text, c03Location(0))
+			if err != nil {
+				return nil, err
+			}
+			*stage = "marshal"
+			return json.Marshal(d)
+		})
+		step("jr", func(stage *string) ([]byte, error) {
+			*stage = "load"
+			d, err := c03Loader(table).LoadFromIoReader(strings.NewReader(string(text)))
+			if err != nil {
+				return nil, err
+			}
+			*stage = "marshal"
+			return json.Marshal(d)
+		})
+		// other spellings of the same document that only the YAML reader accepts: the JSON text behind a comment
+		// line (flow style: the JSON reader refuses it, the YAML reader reads flow mappings and sequences), and
+		// block style with the all-digit map keys (status codes) unquoted, as people write them (YAML integers)
+		step("jf", func(stage *string) ([]byte, error) {
+			return reload(stage, append([]byte("# flow style\n"), text...), nil)
+		})
+		step("jk", func(stage *string) ([]byte, error) {
+			*stage = "to_yaml"
+			y, err := oyaml.JSONToYAML(text)
+			return reload(stage, c03UnquoteIntKeys(y), err)
+		})
+		// a loader that reads the root document itself through its reader (LoadFromURI)
+		step("jl", func(stage *string) ([]byte, error) {
+			*stage = "load"
+			withRoot := map[string][]byte{c03Location(0).String(): text}
+			for k, v := range table {
+				withRoot[k] = v
+			}
+			d, err := c03Loader(withRoot).LoadFromURI(c03Location(0))
+			if err != nil {
+				return nil, err
+			}
+			*stage = "marshal"
+			return json.Marshal(d)
+		})
+		// the T by value (json.Marshal(*doc), a T embedded by value in another struct)
+		step("jv", func(stage *string) ([]byte, error) {
+			*stage = "marshal"
+			return json.Marshal(*doc1)
+		})
+		// other writers of the parsed input: the MarshalJSON method itself, and the value MarshalYAML returns
+		// (what a YAML encoder is handed) written as JSON
+		step("jm", func(stage *string) ([]byte, error) {
+			*stage = "marshal"
+			return doc1.MarshalJSON()
+		})
+		step("jy", func(stage *string) ([]byte, error) {
+			*stage = "marshal"
+			v, err := doc1.MarshalYAML()
+			if err != nil {
+				return nil, err
+			}
+			return json.Marshal(v)
+		})
+		// the reader option IncludeOrigin (a package variable; it only acts on input that is not JSON): the
+		// input as YAML text, loaded with the option on
+		step("jo", func(stage *string) ([]byte, error) {
+			*stage = "to_yaml"
+			y, err := oyaml.JSONToYAML(text)
+			if err != nil {
+				return nil, err
+			}
+			openapi3.IncludeOrigin = true
+			defer func() { openapi3.IncludeOrigin = false }()
+			return reload(stage, y, nil)
 		})
 	}
 	if len(msgs) != 0 {
@@ -256,7 +428,313 @@ func c03Trips2(text []byte) any {
 			y, err := oyaml.JSONToYAML(text)
 			return fromYAML(stage, y, err)
 		})
+		step("jf", func(stage *string) ([]byte, error) {
+			return fromYAML(stage, append([]byte("# flow style\n"), text...), nil)
+		})
+		step("jk", func(stage *string) ([]byte, error) {
+			*stage = "to_yaml"
+			y, err := oyaml.JSONToYAML(text)
+			return fromYAML(stage, c03UnquoteIntKeys(y), err)
+		})
+		// the UnmarshalJSON method itself; the writers: the T by value, the MarshalJSON method itself
+		step("ju", func(stage *string) ([]byte, error) {
+			*stage = "load"
+			var d openapi2.T
+			if err := d.UnmarshalJSON(text); err != nil {
+				return nil, err
+			}
+			*stage = "marshal"
+			return json.Marshal(&d)
+		})
+		step("jv", func(stage *string) ([]byte, error) {
+			*stage = "marshal"
+			return json.Marshal(*doc1)
+		})
+		step("jm", func(stage *string) ([]byte, error) {
+			*stage = "marshal"
+			return doc1.MarshalJSON()
+		})
 	}
+	if len(msgs) != 0 {
+		obs["msgs"] = msgs
+	}
+	return obs
+}
+
+// ---------------------------------------------------------------------------------------------
+// History lines: ONE receiver takes the prior documents and then the document under test.
+//   j1  the document under test through the canonical reader with a fresh receiver (as on document lines)
+//   pr  per prior document: did it parse
+//   jh  JSON of the receiver after the last parse
+// Entries: json / yaml / meth (UnmarshalJSON) / alt (json, yaml, json ... in turn) fill one T value;
+// loader / lpath (OpenAPI 3) use one Loader (LoadFromData; LoadFromDataWithPath with a new location each time).
+
+// c03NewKind: a new zero value (as a pointer) of the Go type of an object kind of spec/DocModel.tla, or of its
+// reference wrapper type.
+func c03NewKind(kind string, wrap bool) any {
+	if wrap {
+		switch kind {
+		case "Schema":
+			return new(openapi3.SchemaRef)
+		case "Response":
+			return new(openapi3.ResponseRef)
+		case "Parameter":
+			return new(openapi3.ParameterRef)
+		case "Example":
+			return new(openapi3.ExampleRef)
+		case "RequestBody":
+			return new(openapi3.RequestBodyRef)
+		case "Header":
+			return new(openapi3.HeaderRef)
+		case "SecurityScheme":
+			return new(openapi3.SecuritySchemeRef)
+		case "Link":
+			return new(openapi3.LinkRef)
+		case "Callback":
+			return new(openapi3.CallbackRef)
+		case "Schema2":
+			return new(openapi2.SchemaRef)
+		}
+		return nil
+	}
+	switch kind {
+	case "T3":
+		return new(openapi3.T)
+	case "Info", "Info2":
+		return new(openapi3.Info)
+	case "Contact":
+		return new(openapi3.Contact)
+	case "License":
+		return new(openapi3.License)
+	case "Server":
+		return new(openapi3.Server)
+	case "ServerVariable":
+		return new(openapi3.ServerVariable)
+	case "Components":
+		return new(openapi3.Components)
+	case "Paths":
+		return new(openapi3.Paths)
+	case "PathItem":
+		return new(openapi3.PathItem)
+	case "Operation":
+		return new(openapi3.Operation)
+	case "ExternalDocs":
+		return new(openapi3.ExternalDocs)
+	case "Parameter":
+		return new(openapi3.Parameter)
+	case "Header":
+		return new(openapi3.Header)
+	case "RequestBody":
+		return new(openapi3.RequestBody)
+	case "MediaType":
+		return new(openapi3.MediaType)
+	case "Encoding":
+		return new(openapi3.Encoding)
+	case "Responses":
+		return new(openapi3.Responses)
+	case "Response":
+		return new(openapi3.Response)
+	case "Callback":
+		return new(openapi3.Callback)
+	case "Example":
+		return new(openapi3.Example)
+	case "Link":
+		return new(openapi3.Link)
+	case "Tag":
+		return new(openapi3.Tag)
+	case "Schema":
+		return new(openapi3.Schema)
+	case "Discriminator":
+		return new(openapi3.Discriminator)
+	case "XML":
+		return new(openapi3.XML)
+	case "SecurityScheme":
+		return new(openapi3.SecurityScheme)
+	case "OAuthFlows":
+		return new(openapi3.OAuthFlows)
+	case "OAuthFlow":
+		return new(openapi3.OAuthFlow)
+	case "SecurityRequirement":
+		return new(openapi3.SecurityRequirement)
+	case "T2":
+		return new(openapi2.T)
+	case "PathItem2":
+		return new(openapi2.PathItem)
+	case "Operation2":
+		return new(openapi2.Operation)
+	case "Parameter2":
+		return new(openapi2.Parameter)
+	case "Response2":
+		return new(openapi2.Response)
+	case "Header2":
+		return new(openapi2.Header)
+	case "Items2", "Schema2":
+		return new(openapi2.Schema)
+	case "SecurityScheme2":
+		return new(openapi2.SecurityScheme)
+	}
+	return nil
+}
+
+// Kind-level history lines: a value of the kind's own type (entry "kind") or of its reference wrapper type (entry
+// "wrap") takes the prior objects and then the bare object under test, all through json.Unmarshal.
+//   j1  the hosting document through the canonical reader (as on every line)
+//   k1  the bare object into a fresh value, then json.Marshal
+//   pr  per prior object: did it parse
+//   jh  JSON of the ONE value after the last parse
+func c03KindHistory(ver int, kind string, text []byte, table map[string][]byte, h *c03Hist) any {
+	obs := c03History(ver, text, table, &c03Hist{Entry: "none"}).(T) // j1 only
+	delete(obs, "jh")
+	delete(obs, "pr")
+	msgs := T{}
+	if m, ok := obs["msgs"].(T); ok {
+		msgs = m
+	}
+	step := func(name string, f func(stage *string) ([]byte, error)) {
+		obs[name] = c03Trip(func(stage *string) []byte {
+			b, err := f(stage)
+			if err != nil {
+				msgs[name] = c03Clip(err.Error())
+				return nil
+			}
+			return b
+		})
+	}
+	wrap := h.Entry == "wrap"
+	frag := []byte(c03Text(h.Frag))
+	step("k1", func(stage *string) ([]byte, error) {
+		*stage = "load"
+		v := c03NewKind(kind, wrap)
+		if v == nil {
+			return nil, fmt.Errorf("harness: no Go type for kind %q", kind)
+		}
+		if err := json.Unmarshal(frag, v); err != nil {
+			return nil, err
+		}
+		*stage = "marshal"
+		return json.Marshal(v)
+	})
+	pr := []any{}
+	step("jh", func(stage *string) ([]byte, error) {
+		*stage = "prior"
+		v := c03NewKind(kind, wrap)
+		if v == nil {
+			return nil, fmt.Errorf("harness: no Go type for kind %q", kind)
+		}
+		for _, p := range h.Prior {
+			pr = append(pr, json.Unmarshal([]byte(c03Text(p.Doc)), v) == nil)
+		}
+		*stage = "load"
+		if err := json.Unmarshal(frag, v); err != nil {
+			return nil, err
+		}
+		*stage = "marshal"
+		return json.Marshal(v)
+	})
+	for len(pr) < len(h.Prior) {
+		pr = append(pr, false)
+	}
+	obs["pr"] = pr
+	if len(msgs) != 0 {
+		obs["msgs"] = msgs
+	}
+	return obs
+}
+
+func c03History(ver int, text []byte, table map[string][]byte, h *c03Hist) any {
+	obs := T{}
+	msgs := T{}
+	step := func(name string, f func(stage *string) ([]byte, error)) {
+		obs[name] = c03Trip(func(stage *string) []byte {
+			b, err := f(stage)
+			if err != nil {
+				msgs[name] = c03Clip(err.Error())
+				return nil
+			}
+			return b
+		})
+	}
+	step("j1", func(stage *string) ([]byte, error) {
+		*stage = "load"
+		if ver == 3 {
+			d, err := c03Loader(table).LoadFromData(text)
+			if err != nil {
+				return nil, err
+			}
+			*stage = "marshal"
+			return json.Marshal(d)
+		}
+		var d openapi2.T
+		if err := json.Unmarshal(text, &d); err != nil {
+			return nil, err
+		}
+		*stage = "marshal"
+		return json.Marshal(&d)
+	})
+	// fill(i, data): parse data into the receiver as step i; last: marshal the receiver
+	var fill func(i int, data []byte) error
+	var last func() ([]byte, error)
+	into := func(i int, data []byte, v any, meth func([]byte) error) error {
+		entry := h.Entry
+		if entry == "alt" {
+			entry = []string{"json", "yaml"}[i%2]
+		}
+		switch entry {
+		case "json":
+			return json.Unmarshal(data, v)
+		case "yaml":
+			y, err := oyaml.JSONToYAML(data)
+			if err != nil {
+				return err
+			}
+			return oyaml.Unmarshal(y, v)
+		case "meth":
+			return meth(data)
+		}
+		panic("harness: unknown entry " + h.Entry)
+	}
+	switch {
+	case ver == 3 && (h.Entry == "loader" || h.Entry == "lpath"):
+		loader := c03Loader(table)
+		var d *openapi3.T
+		fill = func(i int, data []byte) (err error) {
+			if h.Entry == "lpath" {
+				d, err = loader.LoadFromDataWithPath(data, c03Location(i))
+			} else {
+				d, err = loader.LoadFromData(data)
+			}
+			return err
+		}
+		last = func() ([]byte, error) { return json.Marshal(d) }
+	case ver == 3:
+		var d openapi3.T
+		fill = func(i int, data []byte) error { return into(i, data, &d, d.UnmarshalJSON) }
+		last = func() ([]byte, error) { return json.Marshal(&d) }
+	default:
+		var d openapi2.T
+		fill = func(i int, data []byte) error { return into(i, data, &d, d.UnmarshalJSON) }
+		last = func() ([]byte, error) { return json.Marshal(&d) }
+	}
+	pr := []any{}
+	if h.Entry == "none" { // the canonical trip only (kind-level lines)
+		return obs
+	}
+	step("jh", func(stage *string) ([]byte, error) {
+		*stage = "prior"
+		for i, p := range h.Prior {
+			pr = append(pr, fill(i, []byte(c03Text(p.Doc))) == nil)
+		}
+		*stage = "load"
+		if err := fill(len(h.Prior), text); err != nil {
+			return nil, err
+		}
+		*stage = "marshal"
+		return last()
+	})
+	for len(pr) < len(h.Prior) { // a panic inside a prior parse: the remaining ones were not attempted
+		pr = append(pr, false)
+	}
+	obs["pr"] = pr
 	if len(msgs) != 0 {
 		obs["msgs"] = msgs
 	}
@@ -270,6 +748,12 @@ func c03Trips2(text []byte) any {
 func c03Extra(seed int64, tier string) []json_RawMessage {
 	if tier != "thorough" || os.Getenv("VERIF_C03_NOFIXTURES") != "" {
 		return nil
+	}
+	// when the cases are split over several driver processes (cases.ndjson.shard<k>) only the first one replays the fixtures
+	if f := flag.Lookup("cases"); f != nil {
+		if i := strings.LastIndex(f.Value.String(), ".shard"); i >= 0 && f.Value.String()[i:] != ".shard0" {
+			return nil
+		}
 	}
 	repo := os.Getenv("VERIF_REPO")
 	if repo == "" {
